@@ -340,7 +340,7 @@ fn events_from_json(j: &J) -> Vec<Ev> {
 pub fn check(tier: Tier) -> i32 {
 	surrealkv::verif::set_forced_height(1);
 	let mut report = Report::new("C04", tier, "model_checking");
-	let budget = Budget::new(if tier == Tier::Quick { 50.0 } else { 900.0 });
+	let budget = Budget::new(if tier == Tier::Quick { 30.0 } else { 500.0 });
 	let (oracle_len, store_len) = if tier == Tier::Quick { (9, 7) } else { (11, 9) };
 	let mut evaluations = 0u64;
 	let mut transitions = 0u64;
@@ -442,8 +442,12 @@ pub fn check(tier: Tier) -> i32 {
 	report.set("bounds_completed", json!(completed));
 	report.set("exhaustive", json!(all_complete));
 	report.set("failures_per_class", json!(per_class));
-	report.assume("sequential event orders only: interleavings inside begin() and inside the commit critical section belong to the schedx part (not claimed by this check)");
 	report.assume("two keys a, b (distinct 64-bit fingerprints); fingerprint collisions are outside the claim");
+	// schedule part: overlapping transactions begin and commit concurrently (incl. an apply failure)
+	let code = crate::props::sched::run_into(&mut report, "C04", tier, if tier == Tier::Quick { 25.0 } else { 400.0 });
+	if code != 0 {
+		return code;
+	}
 	report.finish()
 }
 
